@@ -1,6 +1,6 @@
 (* C01 - every oligonucleotide is the targeton template with exactly its mutation applied. *)
 From VV Require Import Model.Base Model.Pattern Model.Seq Model.Vcf Model.Mave Model.Gpo Model.ToCsv
-  Proofs.BaseLemmas Proofs.VcfProofs Proofs.RowProofs.
+  Proofs.BaseLemmas Proofs.VcfProofs Proofs.RowProofs Model.PyLoop Generated.KernelsDnaStr Proofs.KernelDnaStrEquiv.
 
 (* the row law (OligoSeq.from_ref / Seq.alter): the oligo is the template with the bases REF at the variant's
    template position replaced by ALT - for substitutions and deletions ... *)
@@ -38,8 +38,18 @@ Proof. exact revcomp_involutive. Qed.
 Example C01_example : alter (mkSeq 100 (d "ACGTTAGCA")) (mkVar 105 (d "A") []) = Ok (d "ACGTTGCA").
 Proof. vm_compute. reflexivity. Qed.
 
+(* the two splices alter is made of - DnaStr.replace_substr (the slices self[:start] and self[end + 1:] around the new text, inside an f-string)
+   and DnaStr.insert_substr (insert before an offset, or append) - translated from strings/dna_str.py on every run, are the model's, for every
+   range a UIntRange can be and every offset, their assertion and ValueError included (a `str` argument is read as DNA text, which is what
+   the callers pass; the DnaStr constructor would refuse anything else) *)
+Theorem C01_splices_match_source : forall s r off alt,
+  (range_valid r = true -> k_dna_replace_substr s r alt = replace_substr s (rs r) (re r) alt) /\
+  k_dna_insert_substr s off alt = insert_substr s off alt.
+Proof. intros s r off alt. exact (conj (k_dna_replace_substr_eq s r alt) (k_dna_insert_substr_eq s off alt)). Qed.
+
 Print Assumptions C01_alter_replace.
 Print Assumptions C01_alter_insert.
 Print Assumptions C01_row_sequence_fields.
 Print Assumptions C01_row_ref_is_template.
 Print Assumptions C01_revcomp_involutive.
+Print Assumptions C01_splices_match_source.
